@@ -77,7 +77,10 @@ FnTy(op, ts) ==
         j  == IF n = 0 THEN "ERR" ELSE JoinAll(ts)
     IN
     CASE op \in {"add"} ->
-            IF n # 2 THEN "ERR" ELSE IF j \in {"int", "float", "str"} THEN j
+            IF n # 2 THEN "ERR"
+            \* a datetime moved by a duration (either order) is a datetime, two durations add up to a duration
+            ELSE IF {ts[1], ts[2]} = {"datetime", "duration"} THEN "datetime" ELSE IF ts[1] = "duration" /\ ts[2] = "duration" THEN "duration"
+            ELSE IF j \in {"int", "float", "str"} THEN j
             ELSE IF j = "bool" THEN "int" ELSE IF j = "null" THEN "AMBIG" ELSE "ERR"
       [] op \in {"sub", "mul"} ->
             IF n # 2 THEN "ERR" ELSE IF j \in {"int", "float"} THEN j ELSE IF j = "null" THEN "AMBIG"
@@ -268,7 +271,8 @@ ApplyFn(e, vs) ==          \* e: elaborated fn node, vs: argument values (alread
         at == IF Len(e.a) = 0 THEN "null" ELSE JoinAll([i \in DOMAIN e.a |-> e.a[i].ty])  \* joined argument type
         pv == [i \in DOMAIN vs |-> Prom(e.a[i], vs[i], at)]
     IN
-    CASE op = "add" -> IF at = "float" THEN RatAddV(pv[1], pv[2])
+    CASE op = "add" -> IF \E i \in DOMAIN e.a : e.a[i].ty = "duration" THEN (IF SeqAnyU(vs) THEN UNDEF ELSE IF \E i \in DOMAIN vs : IsN(vs[i]) THEN NULL ELSE UNDEF)   \* typed, not evaluated by the model
+                       ELSE IF at = "float" THEN RatAddV(pv[1], pv[2])
                        ELSE IF at = "bool" THEN Strict2(vs[1], vs[2], (IF vs[1] = TRUE THEN 1 ELSE 0) + (IF vs[2] = TRUE THEN 1 ELSE 0))
                        ELSE IF at = "str" THEN Strict2(vs[1], vs[2], vs[1] \o vs[2])
                        ELSE AddV(vs[1], vs[2])
